@@ -133,4 +133,6 @@ def run(R):
             mc = [e for _, e in fn.events() if is_call(e, "memcpy") or is_call(e, "std::memcpy")]
             ok = bool(mc) and any(nn.get("k") == "sizeof" and const_val(nn) == W("once_sizeof") for nn in subexprs(mc[0]))
             R.ob("C39.invoke", fn, fn.loc, ok, "move copies all sizeof(OnceFunction) bytes" if ok else "move does not transfer the whole object (buffer and invoke pointer)", sitekey="move:" + nm, why="moving a OnceFunction transfers the obligation to invoke/clean up")
-    R.need("C39.invoke", n, 4, "OnceFunction invoke/move functions")
+    from props import C11 as _c11
+    n += _c11.callable_once(R, "C39.invoke", "the callable is invoked at most once and destroyed exactly once, on operator() and on cleanupNotRun()")
+    R.need("C39.invoke", n, 6, "OnceFunction invoke/move functions and the type-erased invoke thunks")
